@@ -49,7 +49,8 @@ def run(chk):
             cases.append((f(n), "family:%s:%d" % (name, n)))
     # the nesting limits read from the source, approached from both sides and in an order in which a counter that is
     # not restored on the refusing path would make the next (legal) document fail
-    for const, fam in (("MAX_GROUP_DEPTH", "cm-seq"), ("MAX_GROUP_DEPTH", "cm-choice"), ("MAX_ELEMENT_DEPTH", "nest")):
+    for const, fam in (("MAX_GROUP_DEPTH", "cm-seq"), ("MAX_GROUP_DEPTH", "cm-choice"), ("MAX_GROUP_DEPTH", "cm-right"),
+                       ("MAX_GROUP_DEPTH", "cm-rightchoice"), ("MAX_ELEMENT_DEPTH", "nest")):
         lim = lib.XML_CONSTS.get(const)
         if lim and fam in fams:
             for n in (lim + 1, lim, lim - 1, lim + 2, 5, lim, 3 * lim, lim):
@@ -100,6 +101,7 @@ def run(chk):
     # ---- hostile sizes: only the real code (the model driver's own recursion is not the subject)
     deep = []
     for name, n in [("nest", 5000), ("nest", 50000 if thorough else 20000), ("cm-seq", 20000), ("cm-choice", 50000 if thorough else 20000),
+                    ("cm-right", 200), ("cm-right", 20000), ("cm-rightchoice", 20000),
                     ("cm-mixed", 20000), ("siblings", 6000), ("text", 200000),
                     ("attrs", 3000), ("entchain", 2000), ("unclosed", 20000), ("comment", 100000)]:
         out, dt = timed(h, fams[name](n), 60)
